@@ -76,6 +76,10 @@ CHECKS = {
    technique="explicit-state exploration of observation histories (tree from pickled snapshots of the real filter objects) on the real StaticMultipleModel / GeneralizedPseudoBayesian1 with real UKF models, lock-step independent log-space Bayes / Kalman / moment-matching reference",
    text="For 2, 3, 5 and 30 models, four layouts incl. likelihood underflow and a far-away no-maneuver model, 4 prune thresholds, 2-3 convergence percentages and every observation history to depth 3 (quick) / 4-5 (thorough) or until closure, also through the real EstimateAgent serial and job-path updates: after every predict, update and prune the probabilities are finite, non-negative, sum to one and follow Bayes' rule (with the documented uniform reset, GPB1 mixing and SMM pre-weighting), at least one model remains and exactly the models at or above the threshold survive (the most probable one when all are marked), estimate and covariance are the weighted mean and moment-matched mixture (symmetric PSD), closure happens exactly when the chi-square-gated rule says, and the handed-back filter is the surviving / merged model and keeps filtering.",
    note="numpy and scipy.stats.chi2 arithmetic; UKF = KF on linear systems in the no-redraw mode (C06); hypothesis generation (DB and Lambert) stubbed; the 1e-15 reset accepted as designed"),
+ "C07": dict(level="model_checking", design="§3 C07",
+   technique="small-scope exhaustive enumeration of (visibility mask, reward matrix) on the real Decision/Reward/engine code against a brute-force assignment oracle (verif/oracles/c07_assign.py)",
+   text="For every visibility mask and visibility-masked reward matrix with entries in {-1,0,1,2} for all shapes with T*S<=8, 3x3 over {-1,0,2} (quick) / {-1,0,1,2} (thorough), and 3x4/4x3/4x4 lattices over {0,1}/{0,1,2} under named masks: Munkres and greedy only task visible pairs with at most one target per sensor (Munkres also one sensor per target), Munkres returns a maximum-total complete one-to-one assignment ANDed with visibility, greedy gives each sensor a maximum-reward target of its column, relabelling relabels the decision when the optimum is unique, AllVisible returns exactly the mask, Random picks one visible target per seeing sensor reproducibly for equal seeds; beyond 4x4 on all 5x5/6x6 permutation-matrix rewards, structured families up to 8x8 and constructed known-optimum rewards up to 40x40; normalizeMetrics divides each metric slice by its positive maximum; CostConstrained, Combined and SimpleSummation equal their docstring formulae for every metric-type order; the engine's calculateRewards/generateTasking/getCurrentTasking put the right value at the right (target, sensor) id, also on the tasks table of a real 4x2 scenario.",
+   note="rewards handed to a decision are masked by visibility as the engine produces them; ties may be broken arbitrarily; real-valued totals within 1e-9 are ties; the property's 'randomly up to 40x40' is replaced by deterministic families (sampling is another technique family); stub metrics stand in for filter-based metric values"),
 }
 
 NOT_APPLICABLE = {}
